@@ -10,42 +10,68 @@ use std::io::{Read, Write};
 use std::num::NonZeroU64;
 use std::panic::{catch_unwind, AssertUnwindSafe};
 
-/// `--features guard`: every allocation of exactly the LZMA2 range-decoder chunk buffer size (65531 bytes) is placed
-/// directly in front of an inaccessible page, so that a load one byte past the buffer (e.g. by the assembly
-/// direct-bit decoders, which neither Miri nor AddressSanitizer instrument) faults.
+/// `--features guard`: every allocation of at least one page (element alignment <= 16: byte buffers such as the
+/// range decoder's chunk buffer, the LZ window and dictionary buffers, and the hash / probability tables) gets its own
+/// mapping with an inaccessible page directly behind its last byte (VF_GUARD=back, the default) or directly in front
+/// of its first byte (VF_GUARD=front), so that a load outside the buffer faults - also one made by the inline
+/// assembly, which neither Miri nor AddressSanitizer instrument.
 #[cfg(feature = "guard")]
 mod guard_alloc {
     use std::alloc::{GlobalAlloc, Layout, System};
+    use std::sync::atomic::{AtomicU8, Ordering};
     extern "C" {
         fn mmap(addr: *mut u8, len: usize, prot: i32, flags: i32, fd: i32, off: i64) -> *mut u8;
+        fn munmap(addr: *mut u8, len: usize) -> i32;
         fn mprotect(addr: *mut u8, len: usize, prot: i32) -> i32;
+        fn getenv(name: *const u8) -> *const u8;
     }
     const PAGE: usize = 4096;
-    pub const GUARDED_SIZE: usize = 65531;
+    static MODE: AtomicU8 = AtomicU8::new(0); // 0 = not read yet, 1 = back, 2 = front
+    fn front() -> bool {
+        let m = MODE.load(Ordering::Relaxed);
+        if m != 0 {
+            return m == 2;
+        }
+        let v = unsafe { getenv(b"VF_GUARD\0".as_ptr()) };
+        let f = !v.is_null() && unsafe { *v } == b'f';
+        MODE.store(if f { 2 } else { 1 }, Ordering::Relaxed);
+        f
+    }
+    fn guarded(l: &Layout) -> bool {
+        l.size() >= PAGE && l.align() <= 16
+    }
     pub struct Guarded;
     unsafe impl GlobalAlloc for Guarded {
         unsafe fn alloc(&self, l: Layout) -> *mut u8 {
-            if l.size() == GUARDED_SIZE && l.align() <= 1 {
+            if guarded(&l) {
                 let body = (l.size() + PAGE - 1) / PAGE * PAGE;
                 // PROT_READ|PROT_WRITE = 3, MAP_PRIVATE|MAP_ANONYMOUS = 0x22
                 let p = mmap(std::ptr::null_mut(), body + PAGE, 3, 0x22, -1, 0);
                 if p as isize == -1 {
                     return std::ptr::null_mut();
                 }
+                if front() {
+                    mprotect(p, PAGE, 0);
+                    return p.add(PAGE);
+                }
                 mprotect(p.add(body), PAGE, 0);
+                // (sizes are multiples of the element alignment, so the end-flush address is aligned)
                 return p.add(body - l.size());
             }
             System.alloc(l)
         }
         unsafe fn alloc_zeroed(&self, l: Layout) -> *mut u8 {
-            if l.size() == GUARDED_SIZE && l.align() <= 1 {
+            if guarded(&l) {
                 return self.alloc(l); // fresh anonymous pages are zero
             }
             System.alloc_zeroed(l)
         }
         unsafe fn dealloc(&self, p: *mut u8, l: Layout) {
-            if l.size() == GUARDED_SIZE && l.align() <= 1 {
-                return; // leaked on purpose (a handful of buffers per run)
+            if guarded(&l) {
+                let body = (l.size() + PAGE - 1) / PAGE * PAGE;
+                let base = if front() { p.sub(PAGE) } else { p.sub(body - l.size()) };
+                munmap(base, body + PAGE);
+                return;
             }
             System.dealloc(p, l)
         }
@@ -196,6 +222,12 @@ fn encode(fmt: &str, o: &Opts, data: &[u8], chunk: Option<u64>) -> std::result::
             let mut off = 0;
             let step = [1usize, 77, 4096, 100_000];
             let mut k = 0;
+            // (stratum 6 chooses the size of the first write, so that the encoder window moves at varying offsets)
+            let first = FIRST_WRITE.load(std::sync::atomic::Ordering::Relaxed).min(data.len());
+            if first > 0 {
+                parts(&data[..first])?;
+                off = first;
+            }
             while off < data.len() {
                 let n = step[k % 4].min(data.len() - off);
                 parts(&data[off..off + n])?;
@@ -239,6 +271,8 @@ fn encode(fmt: &str, o: &Opts, data: &[u8], chunk: Option<u64>) -> std::result::
         Err(_) => Err("panic".into()),
     }
 }
+
+static FIRST_WRITE: std::sync::atomic::AtomicUsize = std::sync::atomic::AtomicUsize::new(0);
 
 fn decode(fmt: &str, o: &Opts, comp: &[u8], cap: usize) -> String {
     show(catch_unwind(AssertUnwindSafe(|| match fmt {
@@ -518,6 +552,34 @@ fn main() {
             let res = show(catch_unwind(AssertUnwindSafe(|| read_all(lzma_rust2::filter::bcj2::BCJ2Reader::new(vec![m, c, j, rcs], size), 4096))));
             println!("case {idx} bcj2 dec {res}");
         }
+    }
+    // (6) streams long enough for the encoder window to move, made of short copies at distances within 64 of the
+    //     dictionary size, with literals in between (a copy at the maximal distance right after a window move reads
+    //     the oldest byte the window still has to hold); the first write size varies the offset of the move
+    for v in 0..(if thorough { 48 } else { 10 }) {
+        let mut r = Rng(rng.next());
+        let dict = if v % 5 == 4 { 65536usize } else { 4096 };
+        let fmt = if dict == 65536 { "lzma2" } else if v % 3 == 2 { "lzip" } else { "lzma" };
+        let o = Opts { dict: dict as u32, lc: 3, lp: 0, pb: 2, normal: v % 10 == 9, nice: 32, bt4: v % 2 == 1, depth: 4 };
+        let total = dict + dict / 2 + (256 << 10) + 545 + r.range(20_000, 60_000) as usize;
+        let mut data = gen_data(&mut r, "random", dict + 64);
+        while data.len() < total {
+            let dist = dict - r.below(64) as usize;
+            let len = r.range(2, 40);
+            for _ in 0..r.range(1, 30) {
+                for _ in 0..len {
+                    let x = data[data.len() - dist];
+                    data.push(x);
+                }
+                for _ in 0..r.below(3) {
+                    data.push(r.next() as u8);
+                }
+            }
+        }
+        data.truncate(total);
+        FIRST_WRITE.store(r.range(1, 70_000) as usize, std::sync::atomic::Ordering::Relaxed);
+        emit(&mut r, fmt, &o, &data, None, "farrep");
+        FIRST_WRITE.store(0, std::sync::atomic::Ordering::Relaxed);
     }
     println!("end {}", idx_cell.get());
 }
